@@ -24,7 +24,7 @@ ASSUMPTIONS = [
 ]
 MONITORS = ("lost-bytes accounting: {path: bytes} of the workspace before vs after against the set of intact cache objects; audit-hook trail of "
             "removals as witness; shadow model of the link table for clean-up")
-REQUIRED_COUNTERS = ["inode_only_replacements", "workspaces_with_dangling_symlink", "cleanups_after_checkout", "large_file_directories", "dir_links_with_duplicate_basenames", "damaged_cache_objects", "symlinked_link_records", "checkouts", "uncached_files_in_workspace", "prompt_errors", "declining_prompt_calls", "normal_returns", "kind_swap_cases",
+REQUIRED_COUNTERS = ["single_file_targets", "inode_only_replacements", "workspaces_with_dangling_symlink", "cleanups_after_checkout", "large_file_directories", "dir_links_with_duplicate_basenames", "damaged_cache_objects", "symlinked_link_records", "checkouts", "uncached_files_in_workspace", "prompt_errors", "declining_prompt_calls", "normal_returns", "kind_swap_cases",
                      "link_histories", "unused_link_queries", "remove_links_calls", "relink_cases", "store/local", "store/base",
                      "link/copy", "link/hardlink", "link/symlink"]
 
@@ -216,6 +216,80 @@ def run_shard(ctx):
             env.reset_staging()
             ctx.drop(d)
 
+        def co_single(case=case, rng=rng):
+            """single-file targets: checkout A, the user edits the file, a non-forced checkout of B, then link clean-up"""
+            d = ctx.fresh("f")
+            cls = rng.choice(["local", "local", "base"])
+            link = rng.choice(["copy", "hardlink", "symlink"])
+            use_state = rng.random() < 0.75
+            res.count(f"store/{cls}")
+            res.count(f"link/{link}")
+            res.count("single_file_targets")
+            state = env.mk_state(d, os.path.join(d, "tmp")) if use_state else None
+            odb = env.odb_of_class(cls, os.path.join(d, "cache"), state=state, type=[link])
+            a, b = gen.small_content(rng) + b"A", gen.small_content(rng) + b"B"
+            oids = {}
+            for nm, data in (("a", a), ("b", b)):
+                p_ = os.path.join(d, "src-" + nm)
+                with open(p_, "wb") as f:
+                    f.write(data)
+                _s, _m, obj, _r = env.stage_and_transfer(odb, p_)
+                oids[nm] = obj.hash_info.value
+            ws = os.path.join(d, "ws", "out.bin")
+            os.makedirs(os.path.dirname(ws))
+            checkout(ws, fs, odb.get(oids["a"]), odb, force=True, state=state)
+            edit = rng.choice(["uncached-rename", "uncached-inplace", "none", "cached-b"])
+            if edit == "uncached-inplace" and link != "copy":
+                edit = "uncached-rename"
+            user = gen.small_content(rng) + b"user-own"
+            if edit == "uncached-rename":
+                gen.replace_by_rename(ws, user)
+            elif edit == "uncached-inplace":
+                os.chmod(ws, 0o644)
+                with open(ws, "wb") as f:
+                    f.write(user)
+            elif edit == "cached-b":
+                gen.replace_by_rename(ws, b)
+            before = file_bytes(ws)
+            uncached = H("md5", before) not in colab.cache_intact_digests(os.path.join(d, "cache"))
+            if uncached:
+                res.count("uncached_files_in_workspace")
+                res.nontrivial("single", a, b, before, cls, link, use_state)
+            res.evaluated()
+            res.count("checkouts")
+            prompt_mode = rng.choice(["none", "decline"])
+            outcome = "returned"
+            try:
+                checkout(ws, fs, odb.get(oids["b"]), odb, force=False, relink=rng.random() < 0.3, state=state,
+                         prompt=(lambda m: res.count("declining_prompt_calls") or False) if prompt_mode == "decline" else None)
+                res.count("normal_returns")
+            except PromptError:
+                outcome = "PromptError"
+                res.count("prompt_errors")
+            except (CheckoutError, LinkError) as e:
+                outcome = type(e).__name__
+            cfg = {"single_file": True, "store": cls, "link": link, "state": use_state, "edit": edit, "prompt": prompt_mode, "outcome": outcome}
+            res.sample(cfg)
+            after = file_bytes(ws) if os.path.lexists(ws) and os.path.exists(ws) else None
+            if uncached and after != before:
+                res.violation(f"uncached-user-file-{'removed' if after is None else 'overwritten'}/single-file/{outcome}",
+                              "the single-file target held bytes that are not in the cache and was destroyed by a non-forced checkout", case=case, detail=cfg)
+            elif uncached and outcome == "returned":
+                res.violation("uncached-file-in-the-way-not-refused/single-file", "checkout returned normally over an uncached file", case=case, detail=cfg)
+            elif state is not None and uncached and outcome != "returned":
+                res.count("cleanups_after_checkout")
+                unused = state.get_unused_links([], fs)
+                state.remove_links(unused, fs)
+                end = file_bytes(ws) if os.path.exists(ws) else None
+                if end != before:
+                    res.violation(f"uncached-user-file-removed-by-link-cleanup/after-{outcome}",
+                                  "the refused checkout recorded the user's edited file as its own link; link clean-up then removed it", case=case,
+                                  detail={**cfg, "unused": list(unused)})
+            if state is not None:
+                state.close()
+            env.reset_staging()
+            ctx.drop(d)
+
         def links(case=case, rng=rng):
             d = ctx.fresh("l")
             root = os.path.join(d, "repo")
@@ -356,5 +430,7 @@ def run_shard(ctx):
 
         if case % 3 == 2:
             ctx.guard(case, links)
+        elif case % 6 == 1:
+            ctx.guard(case, co_single)
         else:
             ctx.guard(case, co)
